@@ -9,13 +9,19 @@ import pipeline
 import talgen
 
 PID = 'C20'
-PROOF_MODULES = ['ChamProofs.Props.C20']
-THEOREMS = ['ChamVerif.C20_build_verbatim', 'ChamVerif.C20_eval_text', 'ChamVerif.C20_render_verbatim']
+PROOF_MODULES = ['ChamProofs.Props.C20', 'ChamProofs.Props.C20Expr']
+THEOREMS = ['ChamVerif.C20_build_verbatim', 'ChamVerif.C20_eval_text', 'ChamVerif.C20_render_verbatim',
+            'ChamVerif.C20_build_interp',
+            'ChamVerif.eval_text_interp',
+            'ChamVerif.C20_render_text_expr_text']
 LEVEL_TEXT = ('Proved in Lean on the whole render function of the pipeline model: a text-mode template whose source holds no "${" renders as '
               'its source with newlines normalised and "$$" collapsed — every other character ("<", "&", quotes, tags, tal:-like text, '
               'processing instructions) is copied (C20_render_verbatim, for every source string and configuration; the build step '
-              'C20_build_verbatim shows the single token never reaches the element parser). The "${expr}" half (delimiting, "$" parity, '
-              'unescaped insertion) is the Interpolator model shared with C06 (its theorems: scan_append, C06_own_brace, undouble_*), tied '
+              'C20_build_verbatim shows the single token never reaches the element parser); a text-mode template whose source the Interpolator '
+              'splits into pre, one expression and post (C06_text_expr_text proves that split for pre ++ "${" ++ e ++ "}" ++ post) renders to '
+              'pre ++ t ++ post, t the unescaped string form of the value (C20_render_text_expr_text, on the whole render function: build, compile '
+              'pass, interpreter). Delimiting at the own brace, the "$" parity rule and texts with any number of expressions are the theorems '
+              'of the Interpolator model shared with C06 (C06_candidate_own_brace, C06_dollar_run_even/_odd, C06_text_parts), tied '
               'to the code in text mode by correspondence over an exhaustive alphabet enumeration plus part-list texts, and judged on the '
               'implementation by a constructive reference; the bytes clause of PageTextTemplateFile is judged on files in several encodings.')
 LEVEL_NOTE = ('Known finding D-20b: character entities inside a ${...} expression are decoded in text mode too. Trusted: Lean kernel; the pipeline model (validated by correspondence in text mode). Interpretation I-2: CR/CRLF are '
